@@ -38,6 +38,12 @@ CLAIMED = {
     note="Relative to A-DEP / A-EVAL (pymbolic mappers touch exactly vars(e)); aliasing of array values not modelled; identity-map clause decided under C16's map_expressions contracts. Bounded stand-in (labelled): instrumented context on ~14k real statements.",
     technique="contract-based deductive verification: ast->z3 VC generation with ghost read/write sets, modular super() contracts along the MRO",
     ref="6/C08"),
+
+ "C02": dict(cat="proof",
+    text="CodeBuilder._add_statement is symbolically executed from language.py (54 paths; four loops over sets in arbitrary order; write-through aliasing of `readers`) and proved to establish the dependency transition (last writer of every accessed variable, every reader since the last write of every written variable, execution token, guard variables, state variables for non-assignments). Lemma C02-inv (z3) proves over that transition that every conflicting pair is ordered by a dependency path in program order, externally visible statements are totally ordered and see earlier state updates. fresh_var_name / next_statement_id / if_ (both forms) / else_ are proved to hand out unseen names and distinct ids and to pair guards. L-PERM and L-TOPO (Lean 4 + Mathlib, re-checked every run) conclude that every schedule respecting the recorded edges computes what program order computes.",
+    note="Premise `non-conflicting statements commute` is C08. The z3-to-Lean link (T is hord, path parametricity) is by reading. Thin wrapper methods (assign, yield_state, ...) are only in the bounded stand-in (exhaustive <=2-3 builder calls + random programs executed in all/sampled linear extensions).",
+    technique="contract-based deductive verification: ast->z3 VC generation with set-iteration in arbitrary order and alias tracking; spec-level invariant lemma; Lean meta-lemmas",
+    ref="6/C02"),
 }
 
 NOT_APPLICABLE = {
